@@ -18,6 +18,42 @@ structure GraphOK (rings : Adj) : Prop where
   deg : ∀ v, nbr rings v ≠ [] → 2 ≤ (nbr rings v).length ∧ (nbr rings v).length ≤ 3
   nz : nbr rings 0 = []
 
+theorem graphOKb_sound {rings : Adj} (h : graphOKb rings = true) : GraphOK rings := by
+  simp only [graphOKb, Bool.and_eq_true, decide_eq_true_eq, List.all_eq_true, Bool.not_eq_true',
+    List.any_eq_false, beq_iff_eq] at h
+  obtain ⟨⟨hk, hall⟩, hz⟩ := h
+  have hcase : ∀ v, nbr rings v = [] ∨ ∃ ns, (v, ns) ∈ rings ∧ nbr rings v = ns := by
+    intro v
+    unfold nbr
+    cases hl : rings.lookup v with
+    | none => exact Or.inl rfl
+    | some ns => exact Or.inr ⟨ns, lookup_mem hl, rfl⟩
+  refine ⟨hk, ?_, ?_, ?_, ?_, ?_⟩
+  · intro v w hw
+    rcases hcase v with h0 | ⟨ns, hm, hn⟩
+    · rw [h0] at hw; exact absurd hw List.not_mem_nil
+    · rw [hn] at hw
+      have := (hall _ hm).2 w hw
+      simpa [nbr, Adj.get] using this
+  · intro v
+    rcases hcase v with h0 | ⟨ns, hm, hn⟩
+    · rw [h0]; exact List.nodup_nil
+    · rw [hn]; exact (hall _ hm).1.1.1
+  · intro v hv
+    rcases hcase v with h0 | ⟨ns, hm, hn⟩
+    · rw [h0] at hv; exact absurd hv List.not_mem_nil
+    · rw [hn] at hv
+      have := (hall _ hm).1.1.2
+      simp only [List.contains_eq_mem, decide_eq_false_iff_not] at this
+      exact this hv
+  · intro v hv
+    rcases hcase v with h0 | ⟨ns, hm, hn⟩
+    · exact absurd h0 hv
+    · rw [hn]; exact (hall _ hm).1.2
+  · rcases hcase 0 with h0 | ⟨ns, hm, -⟩
+    · exact h0
+    · exact absurd rfl (hz _ hm)
+
 /-- the yielded path is a Kekulé form of the component (see `PathSound`) -/
 def KekuleFormOf (rings : Adj) (db0 : List Nat) (p : Path) : Prop := PathSound ⟨rings, db0, [], 0, 0⟩ db0 p
 
